@@ -35,6 +35,9 @@ type RuleD struct {
 	Fields  []string `json:"fields,omitempty"`
 	Role    string   `json:"role"`
 	Skipped string   `json:"skipped,omitempty"` // observed: the builder refused the rule
+	// Scribble: after the rule is declared the caller overwrites ITS OWN field slice (the one it passed)
+	// with these names (same length as Fields): a declared rule must not change
+	Scribble []string `json:"scribble,omitempty"`
 }
 
 type TypeD struct {
@@ -299,11 +302,20 @@ func applyRule(wsb appdef.IWorkspaceBuilder, r *RuleD) {
 		if n == 0 {
 			panic("filter has no matches")
 		}
+		var ff []string
+		if len(r.Fields) > 0 {
+			ff = append([]string{}, r.Fields...) // the caller's slice
+			defer func() {
+				if len(r.Scribble) == len(ff) {
+					copy(ff, r.Scribble)
+				}
+			}()
+		}
 		switch r.Kind {
 		case "grant":
-			wsb.Grant(ops(r.Ops), flt, r.Fields, qn(r.Role))
+			wsb.Grant(ops(r.Ops), flt, ff, qn(r.Role))
 		case "revoke":
-			wsb.Revoke(ops(r.Ops), flt, r.Fields, qn(r.Role))
+			wsb.Revoke(ops(r.Ops), flt, ff, qn(r.Role))
 		case "grantall":
 			wsb.GrantAll(flt, qn(r.Role))
 		case "revokeall":
@@ -398,6 +410,9 @@ func number(app appdef.IAppDef, sc *Scenario) *numbering {
 		all.Add(qn(dws[i]), qn(r.Role))
 		walkD(r.Flt)
 		for _, f := range r.Fields {
+			fset[f] = true
+		}
+		for _, f := range r.Scribble {
 			fset[f] = true
 		}
 	}
@@ -623,7 +638,7 @@ func (nb *numbering) declTerm(sc *Scenario, app appdef.IAppDef) string {
 	blk := 0
 	if sc.Vsql {
 		for _, r := range sysRules(app) {
-			out = append(out, fmt.Sprintf("(mkD %s %d false %s)", nb.n(r.Workspace().QName()), blk, nb.realRule(r)))
+			out = append(out, fmt.Sprintf("(mkD %s %d false [] %s)", nb.n(r.Workspace().QName()), blk, nb.realRule(r)))
 			blk++
 		}
 	}
@@ -639,7 +654,11 @@ func (nb *numbering) declTerm(sc *Scenario, app appdef.IAppDef) string {
 		if all {
 			oo = nil
 		}
-		out = append(out, fmt.Sprintf("(mkD %s %d %s (mkRule %s %s %s %s %s))", nb.n(qn(ws)), blk, kit.Bool(all), kit.List(oo),
+		scr := "[]"
+		if len(r.Scribble) == len(r.Fields) && len(r.Fields) > 0 && !sc.Vsql {
+			scr = nb.fs(r.Scribble)
+		}
+		out = append(out, fmt.Sprintf("(mkD %s %d %s %s (mkRule %s %s %s %s %s))", nb.n(qn(ws)), blk, kit.Bool(all), scr, kit.List(oo),
 			kit.Bool(r.Kind == "grant" || r.Kind == "grantall"), nb.filtD(r.Flt), nb.fs(r.Fields), nb.n(qn(r.Role))))
 		if !sc.Vsql {
 			blk++
